@@ -22,29 +22,27 @@ _TAG_BY_CLS = {cls: tag for tag, cls in _CLS.items()}
 
 
 def operator_buildable(t) -> bool:
-    """The tree can be written with the operator syntax alone: two-argument sums/products, Minus, Divide, Power,
-    Negation and integer powers over leaves."""
+    """Some node of the tree can be written with the operator syntax (a + b, a - b, a * b, a / b, a ** b, -a, a ** n)."""
     tag = t[0]
-    if tag in ("var", "const"):
+    if tag in ("minus", "div", "pow", "neg"):
         return True
-    if tag in M.NARY:
-        return len(t[1]) == 2 and all(operator_buildable(c) for c in t[1])
-    if tag in M.BINARY or tag == "neg":
-        return all(operator_buildable(c) for c in M.children(t))
-    if tag == "npow":
-        return isinstance(t[2], int) and operator_buildable(t[1])
-    return False
+    if tag in M.NARY and len(t[1]) == 2:
+        return True
+    if tag == "npow" and isinstance(t[2], int) and not isinstance(t[2], bool):
+        return True
+    return any(operator_buildable(c) for c in M.children(t))
 
 
 def build_with_operators(t):
-    """The same expression written the way users write it: a + b, a - b, a * b, a / b, a ** b, -a, a ** n."""
+    """The same expression written the way users write it: operators wherever the syntax has one, constructors
+    for everything else."""
     tag = t[0]
     if tag in ("var", "const"):
         return build(t)
     ks = [build_with_operators(c) for c in M.children(t)]
-    if tag == "add":
+    if tag == "add" and len(ks) == 2:
         return ks[0] + ks[1]
-    if tag == "mul":
+    if tag == "mul" and len(ks) == 2:
         return ks[0] * ks[1]
     if tag == "minus":
         return ks[0] - ks[1]
@@ -54,9 +52,9 @@ def build_with_operators(t):
         return ks[0] ** ks[1]
     if tag == "neg":
         return -ks[0]
-    if tag == "npow":
+    if tag == "npow" and isinstance(t[2], int) and not isinstance(t[2], bool):
         return ks[0] ** t[2]
-    raise ValueError(tag)
+    return build_over(t, ks)
 
 
 def build(t, share: bool = False, _memo=None):
